@@ -3,7 +3,7 @@
     trace, the evaluator's direct answers for the pods involved, and the
     observations of related requests (exemptions cleared; the bare pod of a
     controller's template; the same request as CREATE; without subresource). *)
-From Coq Require Import List Bool NArith ZArith String.
+From Coq Require Import List Bool NArith ZArith Ascii String.
 From PSA Require Import Base.Str Model.Api Model.Pod Model.Checks Model.Registry Model.Shipped
      Model.Admission Model.Namespace Spec.P05 Spec.PAdm.
 Import ListNotations.
@@ -70,6 +70,30 @@ Definition shared_eqb (a b : shared_tag) : bool :=
   | SharedUser, SharedUser | SharedNamespace, SharedNamespace | SharedRuntimeClass, SharedRuntimeClass => true
   | _, _ => false
   end.
+(** pod / controller texts are compared from their first double quote on (the sentence around
+    the quoted level:version and the evaluator's detail may be reworded without touching any
+    property); namespace warnings are compared exactly *)
+Fixpoint from_quote (s : string) : string :=
+  match s with
+  | EmptyString => EmptyString
+  | String c r => if Ascii.eqb c """"%char then s else from_quote r
+  end.
+Definition audit_match_loose (m i : list (string * string)) : bool :=
+  Nat.eqb (List.length m) (List.length i) &&
+  forallb (fun kv : string * string =>
+             match lookup (fst kv) i with
+             | Some v => if String.eqb (fst kv) "error" then true
+                         else if String.eqb (fst kv) "audit-violations" then String.eqb (from_quote (snd kv)) (from_quote v)
+                         else String.eqb (snd kv) v
+             | None => false
+             end) m.
+Definition resp_match_loose (m i : response) : bool :=
+  Bool.eqb (rs_allowed m) (rs_allowed i) && opt_eqb Z.eqb (rs_code m) (rs_code i)
+  && String.eqb (rs_reason m) (rs_reason i)
+  && (if opt_eqb Z.eqb (rs_code m) (Some 403%Z) then String.eqb (from_quote (rs_message m)) (from_quote (rs_message i)) else true)
+  && list_eqb String.eqb (map from_quote (rs_warnings m)) (map from_quote (rs_warnings i))
+  && audit_match_loose (rs_audit m) (rs_audit i)
+  && shared_eqb (rs_shared m) (rs_shared i).
 Definition resp_match (m i : response) : bool :=
   Bool.eqb (rs_allowed m) (rs_allowed i) && opt_eqb Z.eqb (rs_code m) (rs_code i)
   && String.eqb (rs_reason m) (rs_reason i)
@@ -105,7 +129,7 @@ Definition trace_match (ordered : bool) (m i : list event) : bool :=
   if ordered then list_eqb event_match m i
   else list_eqb String.eqb (ssort (map event_key m)) (ssort (map event_key i)).
 Definition obs_match_gen (ordered : bool) (m i : obs) : bool :=
-  resp_match (fst m) (fst i) && trace_match ordered (snd m) (snd i).
+  (if ordered then resp_match (fst m) (fst i) else resp_match_loose (fst m) (fst i)) && trace_match ordered (snd m) (snd i).
 Definition obs_match (m i : obs) : bool := obs_match_gen true m i.
 
 Definition no_exemptions (c : config) : config :=
@@ -129,11 +153,11 @@ Definition pf06 (c : adm_case) :=
 Definition pf07 (c : adm_case) :=
   negb (P07 (ac_cfg c) (table_ev c) (ac_req c) (ac_world c) (ac_obs c)
         && P07_expiry_reported (ac_cfg c) (ac_req c) (ac_world c) (ac_obs c)).
-Definition pf08 (c : adm_case) := negb (P08 (ac_cfg c) (table_ev c) (ac_req c) (ac_world c) (ac_obs c)).
+Definition pf08 (c : adm_case) := negb (P08_obs (ac_cfg c) (table_ev c) (ac_req c) (ac_world c) (ac_obs c)).
 (** C09 also demands that the template's findings are the *correct* ones for its warn/audit policies: P08 on controller requests *)
 Definition pf09 (c : adm_case) :=
   negb (P09 (ac_cfg c) (table_ev c) (ac_req c) (ac_world c) (ac_obs c) (ac_barepod c))
-  || (is_controller (ac_req c) && negb (P08 (ac_cfg c) (table_ev c) (ac_req c) (ac_world c) (ac_obs c))).
+  || (is_controller (ac_req c) && negb (P08_obs (ac_cfg c) (table_ev c) (ac_req c) (ac_world c) (ac_obs c))).
 Definition pf10 (c : adm_case) := negb (P10 (ac_cfg c) (ac_req c) (ac_world c) (ac_obs c) (ac_create c) (ac_nosub c)).
 Definition pf11 (c : adm_case) := negb (P11 (ac_cfg c) (table_ev c) (ac_req c) (ac_world c) (ac_obs c)).
 Definition pf11cs (c : adm_case) := negb (P11_control_sets (ac_cfg c) (table_ev c) (ac_req c) (ac_world c) (ac_obs c)).
@@ -142,7 +166,7 @@ Definition pf18 (c : adm_case) := negb (P18_adm (ac_cfg c) (ac_req c) (ac_world 
 
 (** C13 on admission messages: the denial message, the warning and the audit annotation carry the
     evaluator's detail for their own level:version (the message clauses of P01 and P08) *)
-Definition pf13 (c : adm_case) := pf01 c || pf08 c.
+Definition pf13 (c : adm_case) := negb (P13_adm (ac_cfg c) (table_ev c) (ac_req c) (ac_world c) (ac_obs c)).
 Definition run_adm (pf : adm_case -> bool) (cs : list adm_case) : list N * list N :=
   (find_idx pf cs, find_idx mismatch_adm cs).
 (** all admission relations at once (development self-check) *)
